@@ -44,7 +44,7 @@ OPTS = {'none': {}, 'blank': dict(remove_blank_text=True), 'blank_nodtd': dict(r
 
 
 def build_app(prot, relaxed=False, validator=None, opts='none'):
-    from spyne import Application, Service, srpc, ComplexModel, Unicode, Integer, Array, XmlAttribute, AnyXml
+    from spyne import Application, Service, srpc, ComplexModel, Unicode, Integer, Array, XmlAttribute, AnyXml, AnyDict
     from lxml import etree as _et
     from spyne.protocol.xml import XmlDocument
     from spyne.protocol.soap import Soap11, Soap12
@@ -57,10 +57,10 @@ def build_app(prot, relaxed=False, validator=None, opts='none'):
         _type_info = [('t', Unicode), ('a', XmlAttribute(Unicode))]
 
     class Svc(Service):
-        @srpc(Unicode, Integer, C, Array(Unicode), AnyXml, _returns=Unicode)
-        def f(s, n, c, xs, ax):
+        @srpc(Unicode, Integer, C, Array(Unicode), AnyXml, AnyDict, _returns=Unicode)
+        def f(s, n, c, xs, ax, ad):
             axs = None if ax is None else (_et.tostring(ax).decode('utf8', 'replace') if hasattr(ax, 'tag') else repr(ax))
-            seen.append([s, n, getattr(c, 't', None) if c is not None else None, getattr(c, 'a', None) if c is not None else None, list(xs or []), axs])
+            seen.append([s, n, getattr(c, 't', None) if c is not None else None, getattr(c, 'a', None) if c is not None else None, list(xs or []), axs, None if ad is None else repr(ad)])
             return u'|'.join(str(x) for x in seen[-1])
     P = {'xml': XmlDocument, 'soap11': Soap11, 'soap12': Soap12}[prot]
     kw = dict(resolve_entities=True, load_dtd=True, attribute_defaults=True, no_network=False, huge_tree=True) if relaxed else {}
@@ -152,6 +152,9 @@ def document(a, canary, dtd, port):
         body = ('<tns:f xmlns:tns="tns"><tns:s>ab</tns:s><tns:n>5</tns:n><tns:c a="ef"><tns:t>cd</tns:t></tns:c>'
                 '<tns:xs><tns:string>gh</tns:string></tns:xs><tns:ax>%s</tns:ax></tns:f>' % esc)
         prolog = ''
+    if pos == 'anydict_leaf':
+        body = ('<tns:f xmlns:tns="tns"><tns:s>ab</tns:s><tns:n>5</tns:n><tns:c a="ef"><tns:t>cd</tns:t></tns:c>'
+                '<tns:xs><tns:string>gh</tns:string></tns:xs><tns:ad><name>Mr. %s jr.</name><title>Dr. %s</title></tns:ad></tns:f>' % (ent, ent))
     if k.startswith('href_fanout_'):
         # the member c is a reference to r0; r_i holds `fan` references to r_(i+1); the last one holds the text
         body = ('<tns:f xmlns:tns="tns"><tns:s>ab</tns:s><tns:n>5</tns:n><tns:c href="#r0"/>'
